@@ -53,6 +53,14 @@ def build_kernel(spec, d, batch=()):
         return K.PiecewisePolynomialKernel(q=spec.get("q", 2), **common)
     if k == "sm":
         return K.SpectralMixtureKernel(num_mixtures=spec.get("mixtures", 2), **{**common, "ard_num_dims": dd})
+    if k == "rbfgrad":
+        return K.RBFKernelGrad(**common)
+    if k == "m52grad":
+        return K.Matern52KernelGrad(**common)
+    if k == "multitask":
+        return K.MultitaskKernel(K.RBFKernel(batch_shape=bs), num_tasks=spec.get("tasks", 2), rank=spec.get("rank", 1), batch_shape=bs)
+    if k == "constant":
+        return K.ConstantKernel(batch_shape=bs)
     if k == "scale":
         return K.ScaleKernel(build_kernel(spec["base"], d, batch), batch_shape=bs)
     if k == "sum":
